@@ -69,8 +69,11 @@ def on_grid_f(eng, st, x, d):
     t = eng.coerce(st, x, KFloat).term
     low, high, step = (eng.get_field(st, d, f).term for f in ("low", "high", "step"))
     r = f_r(t)
-    return SV(KBool, z3.And(f_is_fin(t), z3.ToReal(z3.ToInt(r)) == r, z3.ToInt(r) >= low, z3.ToInt(r) <= high,
-                            (z3.ToInt(r) - low) % step == 0))
+    x = z3.ToInt(r) - low
+    # Python's % exactly as the engine encodes it for `(v - low) % step` in the code and in textual clauses (so that the
+    # two readings are the same term: no non-linear reasoning needed to connect them)
+    pymod = x - z3.If(step > 0, x / step, (-x) / (-step)) * step
+    return SV(KBool, z3.And(f_is_fin(t), z3.ToReal(z3.ToInt(r)) == r, z3.ToInt(r) >= low, z3.ToInt(r) <= high, pymod == 0))
 
 
 R.spec(TR, "_untransform_numerical_param", variant="float", props=["C10", "C11"],
@@ -151,3 +154,4 @@ R.lemma("int-transform-roundtrip", """
         requires=["d.step >= 1", "d.low <= v", "v <= d.high", "(v - d.low) % d.step == 0", "d.low <= d.high",
                   "(d.high - d.low) % d.step == 0", "not d.log"],
         props=["C11"], note="untransform(transform(v)) == v for contained ints (linear scale)")
+R.contracts[("<lemma>", "int-transform-roundtrip")].call_variants = {"_transform_numerical_param": "int", "_untransform_numerical_param": "int"}
